@@ -50,6 +50,7 @@ def build_roots():
             infl = '%s_inflection%s' % (ax, 's' if deg == 3 else '')
             rt = 'Option<f32>' if deg == 2 else 'Option<(f32, Option<f32>)>'
             add('r_infl_%s_%s' % (cn, ax), 'pub fn r_infl_%s_%s(c: %s) -> %s { c.%s() }' % (cn, ax, CT, rt, infl), kind='infl', c=cn, deg=deg, dim=dim, ax=ax)
+            add('r_infl64_%s_%s' % (cn, ax), 'pub fn r_infl64_%s_%s(c: %s<f64>) -> %s { c.%s() }' % (cn, ax, cn, rt.replace('f32', 'f64'), infl), kind='infl', c=cn, deg=deg, dim=dim, ax=ax, ty='f64')
             for mm in ('min', 'max'):
                 add('r_%s_%s_%s' % (mm, cn, ax), 'pub fn r_%s_%s_%s(c: %s) -> f32 { c.%s_%s() }' % (mm, cn, ax, CT, mm, ax), opaque=['*::' + infl, '*%s*::evaluate' % cn], max_paths=400, kind='minmax', c=cn, deg=deg, dim=dim, ax=ax, mm=mm)
             add('r_bounds_%s_%s' % (cn, ax), 'pub fn r_bounds_%s_%s(c: %s) -> (f32, f32) { c.%s_bounds() }' % (cn, ax, CT, ax), opaque=['*::min_' + ax, '*::max_' + ax], kind='bounds', c=cn, deg=deg, dim=dim, ax=ax)
@@ -119,7 +120,7 @@ def run(ctx):
         done += 1
         k = m['kind']; key = 'c15/' + r.name[2:]; w = r.code; deg = m['deg']; dim = m['dim']
         try:
-            if k == 'infl': infl(ctx, key, rs, w, m, eps)
+            if k == 'infl': infl(ctx, key, rs, w, m, named('eps:' + m.get('ty', 'f32')))
             elif k == 'minmax': minmax_rule(ctx, key, rs, w, m)
             elif k == 'search': search_rule(ctx, key, rs, w, m)
             elif k == 'bounds':
